@@ -413,6 +413,8 @@ def replay(path):
         big = words_for(MAXLEN + 1, rp["big_seed"]) if rp.get("big_seed") is not None else None
         ev = api_case(0, rp["accel"], rp["n"], rp["wseed"], big)
         events = [ev]
+    elif rp["kind"] == "gen":
+        events = [ev for ev, _ in gen_limit_cases(0, rp["accel"])]
     else:
         r = vela_run.compile_many([{"id": 0, "net": rp["net"], "opts": rp["opts"]}], extractor=_extract)[0]
         events = []
